@@ -202,6 +202,8 @@ def apply_edits(item, edits, twin_false=False):
             item.drop_attrs(at.get("why", ""))
         elif k == "closure-annotate":
             item.closure_annotate(at["anchor"], int(at.get("nth", "1")), e["a"], e["b"], at.get("why", ""))
+        elif k == "formats":
+            item.formats(-1 if at.get("count", "any") == "any" else int(at["count"]), at.get("fn", "ext_format"))
         elif k == "rename":
             item.rename_ident(at["from"], at["to"], at.get("why", ""))
         elif k == "desugar-for":
